@@ -122,3 +122,82 @@ def check_weights(chk, F, rid="R09.4"):
             B.CONSTS["bitcoin::Weight::ZERO"] = saved
     chk.extra[rid + "_grid_points"] = n
     chk.floor(rid, "grid points", n, 2000)
+
+
+def check_tr_weight(chk, F, rid="R09.10"):
+    """Tr::max_weight_to_satisfy"""
+    from ..builtins import deref
+    from . import c15
+    chk.rule(rid, "Tr::max_weight_to_satisfy: 66 weight units for a key-only output (one 65-byte signature item); with a tree, "
+                  "the largest, over the leaves that can be satisfied, of the BIP-141 / BIP-341 witness weight [elements, script, "
+                  "control block of 33 + 32 x depth bytes] for that leaf's own script size, element count and satisfaction size; "
+                  "ImpossibleSatisfaction when no leaf can be satisfied (trees of several shapes, per-leaf figures crossing the "
+                  "compact-size breakpoints, every subset of unsatisfiable leaves)")
+    fn = assembly.method(F, assembly.TR if hasattr(assembly, "TR") else "descriptor::tr::Tr", "max_weight_to_satisfy")
+    if fn is None:
+        chk.fail(rid, "anchor", "Tr::max_weight_to_satisfy not found", kind="unanalysable")
+        return
+    chk.saw(fn)
+    table = {}
+
+    def fig(which):
+        def f(m_, a, c):
+            v = table[deref(a[0]).fields["leafname"]][which]
+            if which == "S":
+                return v
+            return ok(v) if v is not None else err(Term("no-satisfaction"))
+        return f
+    hooks = {}
+    for p in F.fns:
+        if p.endswith("::script_size") and "Miniscript" in p:
+            hooks[p] = fig("S")
+        if p.endswith("::max_satisfaction_witness_elements"):
+            hooks[p] = fig("E")
+        if p.endswith("::max_satisfaction_size") and "Miniscript" in p:
+            hooks[p] = fig("M")
+    hooks["bitcoin::Weight::from_wu"] = lambda m_, a, c: deref(a[0])
+    m = Machine(F, strict=True, hooks=hooks)
+    TRADT = "descriptor::tr::Tr"
+    n = 0
+    figs = [(1, 1, 1), (34, 2, 66), (253, 252, 252), (252, 253, 253), (3600, 999, 65536), (65536, 5, 100), (10, 1, 0)]
+    try:
+        tr = Adt(TRADT, "Tr", {"internal_key": "IK", "tree": NONE, "spend_info": Term("cache")})
+        r = m.call_path(fn, [tr])
+        n += 1
+        got = r.fields["0"] if isinstance(r, Adt) and r.variant == "Ok" else r
+        chk.obligation(rid, got == 66, "key-only", "key-only output: %r, a single 65-byte signature item weighs 66" % (got,),
+                       where="src/descriptor/tr/mod.rs")
+        for text in ["A", "{A,B}", "{A,{B,C}}", "{{A,B},{C,D}}", "{A,{B,{C,{D,E}}}}"]:
+            tree = c15.mk_tree(text)
+            leaves = [(d, x.fields["leafname"]) for d, x in tree.fields["depths_leaves"].items]
+            tr = Adt(TRADT, "Tr", {"internal_key": "IK", "tree": some(tree), "spend_info": Term("cache")})
+            bad = []
+            for rot in range(len(figs)):
+                for dead in itertools.chain([()], [(i,) for i in range(len(leaves))], [tuple(range(len(leaves)))]):
+                    table.clear()
+                    for i, (d, nm) in enumerate(leaves):
+                        S, E, M = figs[(i + rot) % len(figs)]
+                        table[nm] = {"S": S, "E": None if i in dead else E, "M": None if (i in dead and rot % 2) else M}
+                        if i in dead and not rot % 2:
+                            table[nm]["E"] = None
+                    r = m.call_path(fn, [tr])
+                    n += 1
+                    ws = []
+                    for i, (d, nm) in enumerate(leaves):
+                        t_ = table[nm]
+                        if t_["E"] is None or t_["M"] is None:
+                            continue
+                        cb = 33 + 32 * d
+                        ws.append(varint(t_["E"] + 1) - varint(0) + t_["M"] + varint(t_["S"]) + t_["S"] + varint(cb) + cb)
+                    got = r.fields["0"] if isinstance(r, Adt) and r.variant == "Ok" else ("Err" if isinstance(r, Adt) else r)
+                    want = max(ws) if ws else "Err"
+                    if got != want or (want == "Err" and "ImpossibleSatisfaction" not in repr(r)):
+                        bad.append("figures %r, unsatisfiable leaves %r: %r, expected %r" % (
+                            {k: (v["S"], v["E"], v["M"]) for k, v in table.items()}, dead, got if got != "Err" else repr(r)[:80], want))
+            chk.obligation(rid, not bad, "tree|" + text, "%d case(s); first: %s" % (len(bad), bad[0] if bad else ""),
+                           where="src/descriptor/tr/mod.rs", detail=bad[:8])
+    except Unsupported as e:
+        chk.fail(rid, "unanalysable", "unanalysable: %s" % e, where=e.where, kind="unanalysable")
+    except Panic as e:
+        chk.fail(rid, "panic", "panic: %s" % e, where="src/descriptor/tr/mod.rs")
+    chk.floor(rid, "cases", n, 150)
